@@ -248,7 +248,7 @@ _CONSTS = {
     'M_PI': math.pi, 'M_SQRT2': math.sqrt(2.0), 'M_E': math.e, 'M_PI_2': math.pi / 2, 'M_PI_4': math.pi / 4,
     'M_1_PI': 1 / math.pi, 'M_2_PI': 2 / math.pi, 'M_SQRT1_2': math.sqrt(0.5), 'M_LN2': math.log(2.0),
     'M_LN10': math.log(10.0), 'M_2_SQRTPI': 2 / math.sqrt(math.pi), 'INFINITY': float('inf'), 'NAN': float('nan'),
-    'HUGE_VAL': float('inf'),
+    'HUGE_VAL': float('inf'), 'pi': math.pi, 'e': math.e,
 }
 
 
